@@ -320,6 +320,36 @@ def launch (f : Faults) (co : CreateOutcome) (c : Ctx) : Ctx :=
     | .generic => { (c.call .create .generic).setL .unknown .launchFailed with errs := true }
     | .createErr => { (c.call .create .createErr).setL .unknown .custom with errs := true }
 
+/-! ### `truncateMessage` (launch.go): the provider's error text on its way into an event / the `LaunchFailed` message
+
+Lengths are in BYTES (Go's `len` of a string and `msg[:n]`); a text is given by the byte widths (1..4) of its
+characters.  The function is total: it answers for every text, whatever its characters. -/
+
+/-- `len(msg)` -/
+def textBytes (ws : List Nat) : Nat := ws.sum
+
+/-- byte length of `truncateMessage(msg)` for a `msg` of `n` bytes: short texts pass, the others are cut after
+    `truncateLimit` bytes and get three dots -/
+def truncatedLen (n : Nat) : Nat := if n < truncateLimit then n else truncateLimit + 3
+
+/-- `msg[:k]` on characters: the characters that fit entirely into the first `k` bytes, and how many bytes of the next
+    character are left dangling after the cut (0 = the cut falls on a character boundary) -/
+def cutBytes : Nat → List Nat → List Nat × Nat
+  | _, [] => ([], 0)
+  | k, w :: ws =>
+    if w ≤ k then let r := cutBytes (k - w) ws; (w :: r.1, r.2)
+    else ([], k)
+
+/-- `truncateMessage` on characters: (whole characters kept, dangling bytes, dots appended) -/
+def truncateMessage (ws : List Nat) : List Nat × Nat × Bool :=
+  if textBytes ws < truncateLimit then (ws, 0, false)
+  else let r := cutBytes truncateLimit ws; (r.1, r.2, true)
+
+/-- bytes of the result as Go holds it -/
+def truncateMessageBytes (ws : List Nat) : Nat :=
+  let r := truncateMessage ws
+  textBytes r.1 + r.2.1 + (if r.2.2 then 3 else 0)
+
 /-! ### `Registration.Reconcile` -/
 
 /-- `syncNode`, removal of the unregistered taint, the registered label -/
